@@ -60,6 +60,38 @@ def crc24q_table(data):
     return crc
 
 
+def state_preimage(sv):
+    """3 bytes that drive the zero register to state sv (crc of 3 bytes b is b*x^24 mod G; solve by brute linear algebra)"""
+    # columns: effect of each input bit
+    cols = []
+    for i in range(24):
+        b = (1 << (23 - i)).to_bytes(3, "big")
+        cols.append(crc24q_ref(b))
+    # gaussian elimination over GF(2)
+    rows = [(cols[i], 1 << i) for i in range(24)]
+    x = 0
+    target = sv
+    basis = []
+    for v, tag in rows:
+        for bv_, bt in basis:
+            if v ^ bv_ < v:
+                v ^= bv_
+                tag ^= bt
+        if v:
+            basis.append((v, tag))
+            basis.sort(reverse=True)
+    for bv_, bt in basis:
+        if target ^ bv_ < target:
+            target ^= bv_
+            x ^= bt
+    out = 0
+    for i in range(24):
+        if x >> i & 1:
+            out |= 1 << (23 - i)
+    return out.to_bytes(3, "big")
+
+
+
 class Overrun(Exception):
     pass
 
@@ -667,7 +699,59 @@ def replay_labelopt(case):
     return {"reproduced": bool(failed), "failed": failed, "detail": "; ".join(failed)[:500] or "ok"}
 
 
-REPLAYERS = {'labelopt': replay_labelopt, 'crcseq': replay_crcseq, 'crc': replay_crc, 'construct': replay_construct, 'stream': replay_stream, 'socket': replay_stream, 'parse': replay_parse}
+def replay_roundtrip(case):
+    from pyrtcm.rtcmmessage import RTCMMessage
+    from pyrtcm.rtcmreader import RTCMReader
+    payload = bytes.fromhex(case['payload'])
+    failed = []
+    try:
+        m = RTCMMessage(payload=payload)
+    except Exception as e:  # noqa
+        return {"reproduced": False, "detail": f"payload does not parse ({type(e).__name__}): nothing to round-trip"}
+    try:
+        f = m.serialize()
+        want = b"\xd3" + len(payload).to_bytes(2, "big") + payload
+        want += crc24q_ref(want).to_bytes(3, "big")
+        if f != want:
+            failed.append(f"serialize() = {f[:6].hex()}..{f[-3:].hex()} ({len(f)} bytes), canonical frame is {want[:6].hex()}..{want[-3:].hex()} ({len(want)} bytes)")
+        m2 = RTCMReader.parse(f)
+        if m2.payload != payload or m2.identity != m.identity or public_attrs(m2) != public_attrs(m):
+            failed.append("parse(serialize(m)) differs from m")
+        m3 = RTCMReader.parse(want)
+        if m3.serialize() != want:
+            failed.append("parse(frame).serialize() differs from the frame")
+        m4 = eval(repr(m), {"RTCMMessage": RTCMMessage})
+        if m4.payload != payload or public_attrs(m4) != public_attrs(m):
+            failed.append("eval(repr(m)) differs from m")
+        if m.payload != payload or not isinstance(m.payload, bytes):
+            failed.append("payload getter does not return the original bytes")
+    except Exception as e:  # noqa
+        failed.append(f"exception {type(e).__name__}: {e}")
+    return {"reproduced": bool(failed), "failed": failed, "detail": "; ".join(failed)[:500] or "ok"}
+
+
+def replay_parseseq(case):
+    from pyrtcm.rtcmreader import RTCMReader
+    failed = []
+    for i, h in enumerate(case['frames']):
+        f = bytes.fromhex(h)
+        try:
+            m = RTCMReader.parse(f, validate=case.get('validate', 1))
+        except Exception as e:  # noqa
+            failed.append(f"frame {i}: {type(e).__name__}: {e}")
+            continue
+        if m.payload != f[3:-3] or m.identity != ref_identity(f[3:-3]):
+            failed.append(f"frame {i}: parsed payload/identity are not the frame's (after {i} earlier parses)")
+        else:
+            _, exp = expected_attrs(f[3:-3])
+            if isinstance(exp, dict):
+                bad = compare_attrs(m.identity, exp, public_attrs(m), 1, {'fields'})
+                if bad:
+                    failed.append(f"frame {i}: {bad[0]}")
+    return {"reproduced": bool(failed), "failed": failed, "detail": "; ".join(failed)[:500] or "ok"}
+
+
+REPLAYERS = {'parseseq': replay_parseseq, 'roundtrip': replay_roundtrip, 'labelopt': replay_labelopt, 'crcseq': replay_crcseq, 'crc': replay_crc, 'construct': replay_construct, 'stream': replay_stream, 'socket': replay_stream, 'parse': replay_parse}
 
 
 def replay(case):
